@@ -77,18 +77,19 @@ def rule_utf16(ctx, rid):
     # ---- R04.6 the text encoders: UTF-16 code units from str::encode_utf16 (surrogate pairs above U+FFFF), written little-endian ---------
     for fn in ('<std::string::String as model::unicode::Unicode>::to_unicode', 'nla::ntlm::unicode'):
         ub = ctx.body(fn)
-        names = [c.callee for c in ub.calls]
+        scan = [ub] + P.closures_of(ub.path)         # (the per-code-unit step may sit in a closure: encode_utf16().flat_map(|c| ..))
+        names = [c.callee for b_ in scan for c in b_.calls]
         enc = any(n.endswith('encode_utf16') for n in names) or any(n.endswith('Unicode>::to_unicode') or n.endswith('Unicode::to_unicode') for n in names)
         char_casts = []
         be = False
         le = any(n.endswith('to_le_bytes') for n in names) or any(n.endswith('Unicode>::to_unicode') for n in names)
-        for bi in range(ub.n):
-            for stt in ub.blocks[bi]['stmts']:
+        for b_, bi in [(b_, bi) for b_ in scan for bi in range(b_.n)]:
+            for stt in b_.blocks[bi]['stmts']:
                 if stt['s'] != 'assign':
                     continue
                 rv = stt['rv']
-                if rv['rv'] == 'cast' and is_place_op(rv['op']) and not rv['op']['place']['p'] and ub.local_ty(rv['op']['place']['l']) == 'char':
-                    char_casts.append(where(ub, bi))
+                if rv['rv'] == 'cast' and is_place_op(rv['op']) and not rv['op']['place']['p'] and b_.local_ty(rv['op']['place']['l']) == 'char':
+                    char_casts.append(where(b_, bi))
                 if rv['rv'] == 'agg' and rv.get('adt') == 'model::data::Value':
                     le = le or rv.get('variant') == 'LE'
                     be = be or rv.get('variant') == 'BE'
